@@ -647,6 +647,20 @@ theorem strictTotal_nat_gt : StrictTotal (fun a b : Nat => decide (a > b)) :=
 theorem strictWeak_nat_half : StrictWeak (fun a b : Nat => decide (a / 2 < b / 2)) :=
   ⟨by intro a; simp, by intro a b c; simp; omega, by intro a b c; simp; omega⟩
 
+/-- the hypothesis `StrictWeak` as a decidable predicate on samples: a strict weak order passes `strictWeakOn` on every finite
+    sample of keys (so a comparator failing it on some sample is outside every theorem of this file) -/
+theorem strictWeak_on_samples (hw : StrictWeak lt) (xs : List α) : strictWeakOn lt xs = true := by
+  simp only [strictWeakOn, Bool.and_eq_true, List.all_eq_true]
+  refine ⟨⟨fun a _ => by simp [hw.irrefl a], fun a _ b _ c _ => ?_⟩, fun a _ b _ c _ => ?_⟩
+  · cases hab : lt a b <;> cases hbc : lt b c <;> simp
+    exact hw.trans a b c hab hbc
+  · cases hab : lt a b <;> cases hba : lt b a <;> cases hbc : lt b c <;> cases hcb : lt c b <;> simp
+    exact hw.incomp_trans a b c hab hba hbc hcb
+
+-- samples (tests, not proofs): the harness' strict-weak-only comparator passes on its key universe; `≤` fails
+example : strictWeakOn (fun a b : Nat => decide (a / 2 < b / 2)) [0, 1, 2, 3, 4, 5, 6, 7] = true := by decide
+example : strictWeakOn (fun a b : Nat => decide (a ≤ b)) [0, 1] = false := by decide
+
 theorem half_not_total : ¬ EquivIsEq (fun a b : Nat => decide (a / 2 < b / 2)) :=
   fun h => absurd (h 2 3 (by decide) (by decide)) (by decide)
 
